@@ -36,10 +36,17 @@ def workload(mod, tier, seed):
     """The case stream of one check.  The thorough tier repeats the module's thorough generator under THOROUGH_PASSES derived seeds:
     the random parts of every generator (shapes, values, option draws, histories) are new in each pass, the exhaustive parts are
     re-run with new values.  Deterministic, so every shard sees the same stream."""
-    yield from mod.gen_cases(tier, seed)
-    if tier == "thorough":
-        for sub in range(1, int(getattr(mod, "THOROUGH_PASSES", 6))):
-            yield from mod.gen_cases(tier, int(seed) + 7919 * sub)
+    npint = bool(getattr(mod, "NPINT_ARGS", False))
+
+    def stream():
+        yield from mod.gen_cases(tier, seed)
+        if tier == "thorough":
+            for sub in range(1, int(getattr(mod, "THOROUGH_PASSES", 6))):
+                yield from mod.gen_cases(tier, int(seed) + 7919 * sub)
+    for i, case in enumerate(stream()):
+        if npint and (i + int(seed)) % 4 == 3:
+            case["npint_args"] = True          # see core.Ctx.begin
+        yield case
 
 
 def run_shard(prop, tier, seed, shard, nshards):
